@@ -4,9 +4,12 @@ import (
 	"encoding/json"
 	"flag"
 	"fmt"
+	"github.com/go-spatial/geom"
+	"github.com/pdok/texel/tms20"
 	"go/ast"
 	"go/parser"
 	"go/token"
+	"math"
 	"math/rand"
 	"os"
 	"strconv"
@@ -280,6 +283,45 @@ func mortonTrace(args []string) int {
 			return false
 		}()
 		w.put(map[string]any{"op": "must", "x": bitsOf(x), "y": bitsOf(y), "z": bitsOf(z), "panicked": panicked})
+	}
+	// through the point index on grids deeper than 32 levels (WebMercatorQuad 21..24): a vertex whose deepest pixel address needs
+	// 33 bits must be reported (error or panic), never stored under another pixel's key
+	if wm, err := tms20.LoadEmbeddedTileMatrixSet("WebMercatorQuad"); err == nil {
+		if dg, derr := loadDocGeom("WebMercatorQuad"); derr == nil {
+			minX, _ := dg.MinX.Float64()
+			minY, _ := dg.MinY.Float64()
+			span, _ := dg.Span0.Float64()
+			for i := 0; i < 40; i++ {
+				id := 21 + rng.Intn(4)
+				lvl := dg.level(id)
+				// fractions of the span: below 2^32 / 2^lvl the address fits; keep a margin of a thousandth of that bound
+				bound := math.Ldexp(1, 32-lvl)
+				fx, fy := rng.Float64()*bound*0.998, rng.Float64()*bound*0.998
+				wide := false
+				switch i % 4 {
+				case 1:
+					fx, wide = bound*1.002+rng.Float64()*(0.99-bound*1.002), true
+				case 2:
+					fy, wide = bound*1.002+rng.Float64()*(0.99-bound*1.002), true
+				case 3:
+					fx, fy, wide = 0.5+rng.Float64()*0.4, 0.5+rng.Float64()*0.4, true
+				}
+				pt := geom.Point{minX + fx*span, minY + fy*span}
+				reported := func() (rep bool) {
+					defer func() {
+						if recover() != nil {
+							rep = true
+						}
+					}()
+					ix, ierr := pointindex.FromTileMatrixSet(wm, id)
+					if ierr != nil {
+						return true
+					}
+					return ix.InsertPoint(pt) != nil
+				}()
+				w.put(map[string]any{"op": "deep", "level": lvl, "wide": wide, "reported": reported})
+			}
+		}
 	}
 	for i := 0; i < *n; i++ {
 		z := uint(rng.Uint64())
